@@ -1,9 +1,99 @@
 package main
 
+import (
+	"go/types"
+
+	"golang.org/x/tools/go/ssa"
+)
+
 // Static (non-SMT) obligations: call-graph, ownership and frame checks computed on SSA.
 
 func (P *Program) staticChecks(prop string) []*Obligation {
-	return nil
+	var out []*Obligation
+	out = append(out, P.typeInvImmutable(prop)...)
+	return out
+}
+
+func staticOb(name, pos, descr string, ok bool, why string) *Obligation {
+	ob := &Obligation{Name: name, Fn: "static", Kind: "static", Pos: pos, Descr: descr, Goal: True}
+	if !ok {
+		ob.Goal = False
+		ob.Descr = descr + " — " + why
+	}
+	return ob
+}
+
+func (P *Program) allocatesType(fn *ssa.Function, ti *TypeInv) bool {
+	for _, b := range fn.Blocks {
+		for _, in := range b.Instrs {
+			if a, ok := in.(*ssa.Alloc); ok {
+				if n, ok := types.Unalias(derefType(a.Type())).(*types.Named); ok && n.Obj().Pkg() != nil &&
+					n.Obj().Pkg().Path() == ti.Pkg && n.Obj().Name() == ti.Type {
+					return true
+				}
+			}
+		}
+	}
+	return false
+}
+
+// exprFields lists the field names selected on `self` in a type invariant.
+func exprFields(e *Expr, out map[string]bool) {
+	if e.Kind == "sel" && e.Args[0].Kind == "ident" && e.Args[0].Name == "self" {
+		out[e.Name] = true
+	}
+	for _, a := range e.Args {
+		exprFields(a, out)
+	}
+}
+
+// typeInvImmutable: the fields a type invariant mentions are stored only into objects that
+// the storing function itself allocated (i.e. while under construction).
+func (P *Program) typeInvImmutable(prop string) []*Obligation {
+	var out []*Obligation
+	for _, ti := range P.Spec.TypeInvs {
+		if !hasProp(ti.Props, prop) {
+			continue
+		}
+		tn := P.lookupTypeName(ti.Pkg, ti.Type)
+		if tn == nil {
+			out = append(out, staticOb("static/typeinv-immutable:"+ti.Type, "?", "type of invariant exists", false, "type not found"))
+			continue
+		}
+		fields := map[string]bool{}
+		exprFields(ti.Clause.Expr, fields)
+		keys := map[string]string{}
+		st := tn.Type().Underlying().(*types.Struct)
+		for i := 0; i < st.NumFields(); i++ {
+			if fields[st.Field(i).Name()] {
+				keys[fieldKey(tn.Type(), i)] = st.Field(i).Name()
+			}
+		}
+		ok := true
+		why := ""
+		for _, fn := range P.ModFuncs {
+			fresh := freshValues(fn)
+			for _, b := range fn.Blocks {
+				for _, in := range b.Instrs {
+					s, isStore := in.(*ssa.Store)
+					if !isStore {
+						continue
+					}
+					k, fr, loc := P.addrKey(s.Addr, fresh)
+					if loc || fr || k == "" {
+						continue
+					}
+					if f, hit := keys[k]; hit {
+						ok = false
+						why = "field " + f + " written outside construction in " + relName(fn) + " at " + P.pos(s.Pos())
+					}
+				}
+			}
+		}
+		out = append(out, staticOb("static/typeinv-immutable:"+ti.Type, P.pos(tn.Pos()),
+			"fields named by the invariant of "+ti.Type+" are written only during construction", ok, why))
+	}
+	return out
 }
 
 func propAssumptions(prop string) []string {
